@@ -135,6 +135,12 @@ fn main() {
         let (igid, _) = m.add_imported_global("env".into(), "ig".into(), DataType::I64, false, false);
         println!("iterator global id {:?}, imported global id {:?} (must differ)", gid, igid);
     });
+    run("S13b duplicate explicit types: which id does add_func_type return? (run in several processes)", || {
+        let w = wat::parse_str(r#"(module (type (func)) (type (func)) (func (type 0)) (func (type 1)))"#).unwrap();
+        let mut m = Module::parse(&w, false).unwrap();
+        let ty = m.types.add_func_type(&[], &[], None);
+        println!("add_func_type(&[], &[]) -> {:?}", ty);
+    });
     run("S10 set_fn_name on added import", || {
         let w = wat::parse_str(r#"(module (func $a))"#).unwrap();
         let mut m = Module::parse(&w, false).unwrap();
